@@ -680,7 +680,12 @@ def run_impl(case):
                 for k in case.get('embed', []):
                     back = back[k]
             else:
+                out_before = penc(out, env)
                 back = S.deserialize_value(out)
+                # the serialized data is JSON data that is used again (an emitter hands out its own table): reading
+                # it back must leave it as it was
+                if penc(out, env) != out_before:
+                    fails.append('input-changed: deserialize_value rewrote the serialized data it was given')
             obs['deser'] = {'ok': penc(back, env)}
         except Exception as e:  # noqa
             back = None
